@@ -1,7 +1,7 @@
-\* thorough tier, second run: keeps exploring on tainted lists, handle ids are recycled
+\* thorough tier, second run: keeps exploring on tainted lists, no recycling of handle ids
 CONSTANTS
   Ns = {3}
   Vals = {1, 2}
-  Recycle = TRUE
+  Recycle = FALSE
   Deep = TRUE
 INVARIANTS TypeOK WellFormed RemovedDetached Observable Terminates
